@@ -41,6 +41,10 @@ fn active(src: Source, set: u32) -> bool {
 }
 
 struct Fixture {
+	/// a second project without any VCS metadata directory (its .gitignore is still a VCS ignore file)
+	plain: std::path::PathBuf,
+	/// a watched directory outside the project origin
+	outside: std::path::PathBuf,
 	proj: std::path::PathBuf,
 	extra_ignore: std::path::PathBuf,
 	filter_file: std::path::PathBuf,
@@ -58,6 +62,12 @@ fn fixture(root: &Path) -> Fixture {
 	std::fs::write(proj.join(".gitignore"), "vcs_proj.x\n").unwrap();
 	std::fs::write(proj.join(".ignore"), "gen_proj.x\n").unwrap();
 	std::fs::write(xdg.join("git/ignore"), "vcs_glob.x\n").unwrap();
+	let plain = root.join("plain");
+	let outside = root.join("outside");
+	std::fs::create_dir_all(plain.join("sub")).unwrap();
+	std::fs::create_dir_all(outside.join("sub")).unwrap();
+	std::fs::write(plain.join(".gitignore"), "vcs_proj.x\n").unwrap();
+	std::fs::write(plain.join(".ignore"), "gen_proj.x\n").unwrap();
 	std::fs::write(xdg.join("watchexec/ignore"), "app_glob.x\n").unwrap();
 	let extra_ignore = root.join("extra.ignore");
 	// a file-name line and three lines that name directories (git style: everything below them is ignored too)
@@ -71,12 +81,17 @@ fn fixture(root: &Path) -> Fixture {
 	}
 	std::env::set_var("GIT_CONFIG_NOSYSTEM", "1");
 	std::env::set_current_dir(&proj).unwrap();
-	Fixture { proj, extra_ignore, filter_file }
+	Fixture { plain, outside, proj, extra_ignore, filter_file }
 }
 
 fn ev(proj: &Path, name: &str, kind: FileEventKind) -> Event {
+	// "OUT:<rel>" names a file under the watched directory outside the project origin
+	let path = match name.strip_prefix("OUT:") {
+		Some(rel) => proj.parent().expect("fixture root").join("outside").join(rel),
+		None => proj.join(name),
+	};
 	Event {
-		tags: vec![Tag::Path { path: proj.join(name), file_type: Some(FileType::File) }, Tag::FileEventKind(kind)],
+		tags: vec![Tag::Path { path, file_type: Some(FileType::File) }, Tag::FileEventKind(kind)],
 		metadata: Default::default(),
 	}
 }
@@ -109,6 +124,10 @@ pub async fn run(args: &ShardArgs, rep: &mut Report) {
 				("sub/expcache/deep/inner.txt", modify, false),
 				("plain.txt", modify, true),
 				("sub/plain.txt", modify, true),
+				// the second watched directory lies outside the project origin: the explicit file is not tied to the origin
+				("OUT:exp_igf.x", modify, false),
+				("OUT:sub/exp_igf.x", modify, false),
+				("OUT:plain.txt", modify, true),
 			],
 		),
 		("--filter", vec!["--filter".into(), "f_*".into()], vec![("f_yes.txt", modify, true), ("plain.txt", modify, false)]),
@@ -148,22 +167,30 @@ pub async fn run(args: &ShardArgs, rep: &mut Report) {
 
 	// second pass: the same project given through --project-origin while watchexec is started in a sub-directory that
 	// has no VCS marker of its own (only the flag-removes-exactly-its-sources part, without explicit options)
-	for (cwd_variant, set) in (0..64u32).map(|s| (0, s)).chain((0..64u32).map(|s| (1, s))) {
-		std::env::set_current_dir(if cwd_variant == 0 { fx.proj.clone() } else { fx.proj.join("sub") }).unwrap();
+	// third pass: a project without any VCS metadata directory. What applies there without flags is taken as the
+	// baseline (set 0 comes first); a flag combination must switch off exactly the sources it names and leave the rest
+	let mut plain_baseline: std::collections::BTreeMap<&str, bool> = Default::default();
+	for (cwd_variant, set) in (0..64u32).map(|s| (0, s)).chain((0..64u32).map(|s| (1, s))).chain((0..64u32).map(|s| (2, s))) {
+		let origin = if cwd_variant == 2 { fx.plain.clone() } else { fx.proj.clone() };
+		std::env::set_current_dir(if cwd_variant == 1 { fx.proj.join("sub") } else { origin.clone() }).unwrap();
 		let flags: Vec<&str> = FLAGS.iter().enumerate().filter(|(i, _)| set & (1 << i) != 0).map(|(_, f)| *f).collect();
 		for (ename, eargs, probes) in &explicit {
 			if cwd_variant == 1 && *ename != "none" {
 				continue;
 			}
+			if cwd_variant == 2 && !matches!(*ename, "none" | "--ignore-file") {
+				continue;
+			}
 			let mut argv: Vec<OsString> = vec!["watchexec".into()];
 			argv.extend(flags.iter().map(|f| OsString::from(*f)));
 			argv.extend(eargs.iter().cloned());
-			argv.extend(["--project-origin".into(), fx.proj.clone().into(), "-w".into(), fx.proj.clone().into(), "--".into(), "true".into()]);
+			argv.extend(["--project-origin".into(), origin.clone().into(), "-w".into(), origin.clone().into(), "-w".into(), fx.outside.clone().into(), "--".into(), "true".into()]);
 			rep.eval();
 			let mut h = Fnv::default();
 			h.u64(u64::from(set)).u64(cwd_variant).str(ename);
 			rep.nontrivial(h.finish());
-			let wit = |extra: Value| json!({"argv": argv.iter().map(|a| a.to_string_lossy().to_string()).collect::<Vec<_>>(), "cwd": if cwd_variant == 0 { "<project>" } else { "<project>/sub" }, "detail": extra});
+			let cwd_name = ["<project>", "<project>/sub", "<project without VCS metadata>"][cwd_variant as usize];
+			let wit = |extra: Value| json!({"argv": argv.iter().map(|a| a.to_string_lossy().to_string()).collect::<Vec<_>>(), "cwd": cwd_name, "detail": extra});
 			let parsed = match watchexec_cli::verif::args_from(argv.clone()).await {
 				Ok(a) => a,
 				Err(e) => {
@@ -181,7 +208,7 @@ pub async fn run(args: &ShardArgs, rep: &mut Report) {
 			// (a) explicit options behave the same under every flag combination
 			for (file, kind, want) in probes {
 				rep.count("explicit_probes_judged", 1);
-				let got = filterer.check_event(&ev(&fx.proj, file, *kind), Priority::Normal).unwrap_or(true);
+				let got = filterer.check_event(&ev(&origin, file, *kind), Priority::Normal).unwrap_or(true);
 				if got != *want {
 					rep.violation(
 						&format!("C12/explicit/{ename}/{file}/{}", if *want { "wrongly-rejected" } else { "not-honoured" }),
@@ -198,8 +225,15 @@ pub async fn run(args: &ShardArgs, rep: &mut Report) {
 			if matches!(*ename, "none" | "--ignore" | "--ignore-file") {
 				for (file, src) in &sources {
 					rep.count("source_probes_judged", 1);
-					let got_pass = filterer.check_event(&ev(&fx.proj, file, modify), Priority::Normal).unwrap_or(true);
-					let want_pass = !active(*src, set);
+					let got_pass = filterer.check_event(&ev(&origin, file, modify), Priority::Normal).unwrap_or(true);
+					if cwd_variant == 2 && *file == ".git/x" {
+						continue; // no such directory there
+					}
+					if cwd_variant == 2 && set == 0 {
+						plain_baseline.insert(file, !got_pass);
+						rep.count("plain_project_sources_on_without_flags", u64::from(!got_pass));
+					}
+					let want_pass = if cwd_variant == 2 { !(plain_baseline.get(file).copied().unwrap_or(false) && active(*src, set)) } else { !active(*src, set) };
 					if got_pass != want_pass {
 						rep.violation(
 							&format!("C12/source/{src:?}/{}", if want_pass { "still-applied" } else { "dropped" }),
